@@ -2174,6 +2174,26 @@ impl Interpreter {
         }
     }
 
+    /// Define `name` in the current environment as an alias of the property `name` of
+    /// `target` (exported members of a namespace live on the namespace object)
+    pub fn env_define_alias(&mut self, name: JsString, target: Gc<JsObject>, mutable: bool) {
+        let mut env_ref = self.env.borrow_mut();
+        if let Some(data) = env_ref.as_environment_mut() {
+            data.bindings.insert(
+                VarKey(name.cheap_clone()),
+                Binding {
+                    value: JsValue::Undefined, // the value lives in the property
+                    mutable,
+                    initialized: true,
+                    import_binding: Some(ImportBinding {
+                        module_obj: target,
+                        property_key: PropertyKey::String(name),
+                    }),
+                },
+            );
+        }
+    }
+
     /// Get a variable from the environment chain
     pub fn env_get(&self, name: &JsString) -> Result<JsValue, JsError> {
         let mut current = Some(self.env.cheap_clone());
@@ -2328,6 +2348,14 @@ impl Interpreter {
                             "Assignment to constant variable '{}'",
                             name
                         )));
+                    }
+                    // An alias of a namespace member: the value lives in the property
+                    if let Some(ref alias) = binding.import_binding {
+                        let target = alias.module_obj.cheap_clone();
+                        let prop_key = alias.property_key.clone();
+                        drop(env_ref);
+                        target.borrow_mut().set_property(prop_key, value);
+                        return Ok(());
                     }
                     // Update binding value - Gc clone/drop handles ref_count automatically
                     binding.value = value;
